@@ -69,6 +69,9 @@ def ev(e: ast.AST, env: Dict[str, Any], sym: Callable[[ast.AST], Optional[str]])
                 return l not in r
         except TypeError:
             return UNKNOWN
+    if isinstance(e, ast.Call) and isinstance(e.func, ast.Name) and e.func.id in ("frozenset", "set", "tuple", "list") and len(e.args) == 1 and not e.keywords:
+        v = ev(e.args[0], env, sym)
+        return v if isinstance(v, tuple) else UNKNOWN
     if isinstance(e, (ast.Tuple, ast.List, ast.Set)):
         vals = [ev(x, env, sym) for x in e.elts]
         if any(v is UNKNOWN for v in vals):
